@@ -12,6 +12,9 @@ TLC's counterexample is replayed on the real code.
 import loopx
 
 
+import vlib
+
+
 def run(c):
     loopx.run_suite(c, 'C09')
     # run-once: the loop may return only after the upload decision of the iteration in which nothing is left to wait
@@ -20,6 +23,13 @@ def run(c):
     # storage_retry_forever: more Store failures than storage_retry_count, then success
     import vlib
     vlib.absorb(c, vlib.run_harness(['retry-forever'], timeout=300))
+    # the same steps on DBIs of several hundred entries with values of very different lengths (pages split and
+    # records move while LS iterates and writes): content against the per-key last-writer-wins reference
+    vlib.absorb(c, vlib.run_harness(['bulk', 'C09'], timeout=600))
+    # settings under which the property cannot hold are refused by Config.Check (what the daemon runs first)
+    _g = vlib.run_harness(['config-gate'], timeout=120)
+    _g['mismatches'] = [m for m in _g['mismatches'] if (m.get('sig') or {}).get('prop') in ('C09', 'conformance')]
+    vlib.absorb(c, _g)
     c.assumptions += ['"running" starts after the start-up capture; changes made while LS is down are stamped 1 ns (documented)',
                       'shadow mode sees net changes between two LS transactions', 'one instance + environment; one key (quick)']
     c.extra['rule'] = 'simulated behaviours of LSLoop (deduplicated) replayed through the real sync loop; distinct = behaviours longer than 6 steps'
